@@ -5,7 +5,9 @@ package store
 // Explicit-state search (mc.BFS) over histories of Insert / Get / DeleteExpired / Advance against the real
 // memrevcache under the virtual clock of testing/synctest. Every replay builds fresh caches, applies the
 // history and compares every return value and, after every step, every lookup (Get of every key and GetAll)
-// with a map model written from the property statement.
+// with a map model written from the property statement. Time is exact integer nanoseconds. Most phases keep the
+// clock at x.5 s, away from every expiry; the "expiry-instants" phases put it on whole seconds and 1 ns before / after
+// them, so that insertions, lookups and clean-ups happen exactly at, just before and just after an expiration time.
 
 import (
 	"context"
@@ -33,16 +35,20 @@ const (
 	c31Get
 	c31Clean
 	c31Advance
+	c31AdvTo
 )
 
 // c31Ev is one event of a history. Insert: revocation for key K whose timestamp is floor(now)+TsOff seconds and
-// whose lifetime is TTL seconds. Advance: the clock moves by Adv seconds.
+// whose lifetime is TTL seconds (in an expiry-instants phase the timestamp is the NEAREST whole second + TsOff).
+// Advance: the clock moves by Adv seconds. AdvTo (expiry-instants phases): the clock moves to Adv whole seconds after
+// the nearest whole second, plus Ph nanoseconds (Ph in -1, 0, +1).
 type c31Ev struct {
 	Op    c31Op
 	K     uint8
 	TsOff int8
 	TTL   uint8
 	Adv   uint8
+	Ph    int8
 }
 
 func (e c31Ev) String() string {
@@ -68,6 +74,8 @@ func (e c31Ev) String() string {
 		return fmt.Sprintf("Get(k%d)", e.K)
 	case c31Clean:
 		return "DelExp"
+	case c31AdvTo:
+		return fmt.Sprintf("AdvTo(+%ds%+dns)", e.Adv, e.Ph)
 	default:
 		return fmt.Sprintf("Adv(%d)", e.Adv)
 	}
@@ -83,7 +91,7 @@ const (
 )
 
 // c31Raw gives the raw 32-bit fields of the revocation an Insert event stands for.
-func c31Raw(e c31Ev, nowMs int64) c31Stored {
+func c31Raw(e c31Ev, baseSec int64) c31Stored {
 	var ts uint32
 	switch e.TsOff {
 	case c31TsMin:
@@ -91,7 +99,7 @@ func c31Raw(e c31Ev, nowMs int64) c31Stored {
 	case c31TsMax:
 		ts = 1<<32 - 31
 	default:
-		ts = uint32(nowMs/1000 + int64(e.TsOff)) // wraps once the clock has passed 2^32 s: then it IS a 1970 timestamp
+		ts = uint32(baseSec + int64(e.TsOff)) // wraps once the clock has passed 2^32 s: then it IS a 1970 timestamp
 	}
 	ttl := uint32(e.TTL)
 	switch e.TTL {
@@ -110,11 +118,45 @@ type c31Cfg struct {
 	tsOffs []int
 	ttls   []int
 	advs   []int
-	// startSec > 0: the virtual clock is first moved to startSec+0.5 s (Unix time)
+	// startSec > 0: the virtual clock is first moved to startSec+0.5 s (Unix time; exactly startSec if exact)
 	startSec int64
 	// absClock: the canonical state contains the absolute clock (needed as soon as absolute timestamps or the
 	// 2^32 s boundary are in play; such a space does not close and is explored to its depth bound)
 	absClock bool
+	// exact: "expiry-instants" phase. The clock starts on a whole second (every expiration time is a whole second)
+	// and only moves by AdvTo(d, p) events, d from advTo, p in -1/0/+1 ns: every event happens exactly at, 1 ns
+	// before or 1 ns after a whole second. The phase p is part of the canonical state.
+	exact bool
+	advTo []int
+}
+
+// baseSec is the second that Insert offsets are relative to: floor(now), in an expiry-instants phase the nearest second.
+func (c c31Cfg) baseSec(nowNs int64) int64 {
+	if c.exact {
+		return (nowNs + c31Sec/2) / c31Sec
+	}
+	return nowNs / c31Sec
+}
+
+// events is the menu enabled after hist: everything, except AdvTo events that would not move the clock forward.
+func (c c31Cfg) events(menu []c31Ev, hist []c31Ev) []c31Ev {
+	if !c.exact {
+		return menu
+	}
+	ph := int8(0)
+	for _, e := range hist {
+		if e.Op == c31AdvTo {
+			ph = e.Ph
+		}
+	}
+	out := make([]c31Ev, 0, len(menu))
+	for _, e := range menu {
+		if e.Op == c31AdvTo && e.Adv == 0 && e.Ph <= ph {
+			continue
+		}
+		out = append(out, e)
+	}
+	return out
 }
 
 func (c c31Cfg) menu() []c31Ev {
@@ -133,18 +175,47 @@ func (c c31Cfg) menu() []c31Ev {
 	for _, a := range c.advs {
 		m = append(m, c31Ev{Op: c31Advance, Adv: uint8(a)})
 	}
+	for _, d := range c.advTo {
+		for _, p := range []int8{-1, 0, 1} {
+			m = append(m, c31Ev{Op: c31AdvTo, Adv: uint8(d), Ph: p})
+		}
+	}
 	return m
 }
 
-// ---- reference model: interface -> stored revocation, in integer milliseconds ----
+// ---- reference model: interface -> stored revocation, in exact integer nanoseconds ----
+
+const c31Sec = int64(time.Second)
 
 type c31Stored struct {
 	tsSec  uint32
 	ttlSec uint32
 }
 
-func (s c31Stored) tsMs() int64  { return int64(s.tsSec) * 1000 }
-func (s c31Stored) expMs() int64 { return (int64(s.tsSec) + int64(s.ttlSec)) * 1000 }
+func (s c31Stored) tsNs() int64  { return int64(s.tsSec) * c31Sec }
+func (s c31Stored) expNs() int64 { return (int64(s.tsSec) + int64(s.ttlSec)) * c31Sec } // < 2^33 s: fits int64 ns
+
+// c31Life says where "now" stands relative to the expiration time of a revocation. The statement does not say whether
+// a revocation is expired AT its expiration time (and scion is of two minds: RevInfo.Active counts that instant as
+// active, memrevcache.Insert as expired), so that single instant is a third value: every operation may treat such a
+// revocation as expired or as unexpired; one nanosecond earlier it is unexpired, one nanosecond later expired.
+type c31Life uint8
+
+const (
+	c31Dead c31Life = iota
+	c31AtExpiry
+	c31Live
+)
+
+func (s c31Stored) life(nowNs int64) c31Life {
+	switch e := s.expNs(); {
+	case e > nowNs:
+		return c31Live
+	case e == nowNs:
+		return c31AtExpiry
+	}
+	return c31Dead
+}
 
 type c31Model struct {
 	// stored: what the cache physically holds per key (an expired entry stays until it is cleaned up or
@@ -152,52 +223,118 @@ type c31Model struct {
 	stored map[int]c31Stored
 }
 
-func (m *c31Model) live(k int, nowMs int64) (c31Stored, bool) {
+// live: stored and certainly unexpired.
+func (m *c31Model) live(k int, nowNs int64) (c31Stored, bool) {
 	s, ok := m.stored[k]
-	if !ok || s.expMs() <= nowMs {
+	if !ok || s.life(nowNs) != c31Live {
 		return c31Stored{}, false
 	}
 	return s, true
 }
 
-// insert returns whether the statement demands acceptance and the class of the case.
-func (m *c31Model) insert(k int, s c31Stored, nowMs int64) (bool, string) {
-	if s.expMs() <= nowMs {
-		return false, "insert:rejected-expired"
+// atExpiry: stored and exactly at its expiration time.
+func (m *c31Model) atExpiry(k int, nowNs int64) (c31Stored, bool) {
+	s, ok := m.stored[k]
+	if !ok || s.life(nowNs) != c31AtExpiry {
+		return c31Stored{}, false
 	}
-	cur, isLive := m.live(k, nowMs)
-	_, present := m.stored[k]
+	return s, true
+}
+
+// insertVerdict returns which answers the statement admits (exactly one of them except where the instant
+// now == expiration is involved) and the class of the case. The model is updated by commit once the answer is known.
+func (m *c31Model) insertVerdict(k int, s c31Stored, nowNs int64) (mayAccept, mayReject bool, cls string) {
+	nl := s.life(nowNs)
+	if nl == c31Dead {
+		return false, true, "insert:rejected-expired"
+	}
+	cur, present := m.stored[k]
+	cl := c31Dead
+	if present {
+		cl = cur.life(nowNs)
+	}
+	// the answer for an unexpired revocation
 	switch {
 	case !present:
-		m.stored[k] = s
-		return true, "insert:accepted-first"
-	case !isLive:
-		cls := "insert:accepted-over-expired-newer-ts"
-		if s.tsMs() <= m.stored[k].tsMs() {
+		mayAccept, cls = true, "insert:accepted-first"
+	case cl == c31Dead:
+		mayAccept, cls = true, "insert:accepted-over-expired-newer-ts"
+		if s.tsNs() <= cur.tsNs() {
 			// the stored one is dead, so an older-or-equal timestamp must still be accepted
 			cls = "insert:accepted-over-expired-older-ts"
 		}
-		m.stored[k] = s
-		return true, cls
-	case s.tsMs() > cur.tsMs():
-		m.stored[k] = s
-		return true, "insert:accepted-replaces-live"
-	case s.tsMs() == cur.tsMs():
-		return false, "insert:rejected-equal-ts"
+	case s.tsNs() > cur.tsNs():
+		// newer than what is stored: accepted whether or not the stored one still counts as live
+		mayAccept, cls = true, "insert:accepted-replaces-live"
+		if cl == c31AtExpiry {
+			cls = "insert:accepted-newer-than-stored-at-expiry-instant"
+		}
+	case cl == c31AtExpiry:
+		// not newer than a stored revocation that is exactly at its expiration time: rejected if that one still
+		// counts as live, accepted if it counts as expired
+		mayAccept, mayReject, cls = true, true, "insert:not-newer-than-stored-at-expiry-instant"
+	case s.tsNs() == cur.tsNs():
+		mayReject, cls = true, "insert:rejected-equal-ts"
 	default:
-		return false, "insert:rejected-older-ts"
+		mayReject, cls = true, "insert:rejected-older-ts"
+	}
+	if nl == c31AtExpiry {
+		// the new revocation is exactly at its expiration time: it may be rejected as expired, and it may be accepted
+		// where an unexpired one would be
+		if !mayAccept {
+			return false, true, "insert:at-expiry-instant-not-newer-than-live"
+		}
+		return true, true, "insert:at-expiry-instant"
+	}
+	return mayAccept, mayReject, cls
+}
+
+func (m *c31Model) commit(k int, s c31Stored, accepted bool) {
+	if accepted {
+		m.stored[k] = s
 	}
 }
 
-func (m *c31Model) clean(nowMs int64) int64 {
-	var n int64
-	for k, s := range m.stored {
-		if s.expMs() <= nowMs {
-			delete(m.stored, k)
-			n++
+// cleanCount: number of stored entries that are certainly expired, and of those exactly at their expiration time.
+func (m *c31Model) cleanCount(nowNs int64) (dead, atExpiry int64) {
+	for _, s := range m.stored {
+		switch s.life(nowNs) {
+		case c31Dead:
+			dead++
+		case c31AtExpiry:
+			atExpiry++
 		}
 	}
-	return n
+	return
+}
+
+// cleanCheck compares the count returned by a clean-up with the model and removes what was deleted. All entries that
+// are exactly at their expiration time share the same expiration time and the same now, so whichever way "expired" is
+// read for that instant, it is the same for all of them: the count is dead or dead+atExpiry, nothing in between.
+func (m *c31Model) cleanCheck(got int64, nowNs int64) (cls string, err string) {
+	dead, at := m.cleanCount(nowNs)
+	if got != dead && got != dead+at {
+		if at == 0 {
+			return "", fmt.Sprintf("DeleteExpired returned %d, %d expired entries were stored", got, dead)
+		}
+		return "", fmt.Sprintf("DeleteExpired returned %d, %d expired entries were stored and %d exactly at their "+
+			"expiration time (admissible: %d or %d)", got, dead, at, dead, dead+at)
+	}
+	removeAt := at > 0 && got == dead+at
+	for k, s := range m.stored {
+		if l := s.life(nowNs); l == c31Dead || (l == c31AtExpiry && removeAt) {
+			delete(m.stored, k)
+		}
+	}
+	switch {
+	case at > 0 && removeAt:
+		return "cleanup:at-expiry-instant-removed", ""
+	case at > 0:
+		return "cleanup:at-expiry-instant-kept", ""
+	case dead > 0:
+		return "cleanup:removed", ""
+	}
+	return "cleanup:none", ""
 }
 
 // ---- replay ----
@@ -224,13 +361,26 @@ func c31Replay(t *testing.T, cfg c31Cfg, hist []c31Ev) c31Result {
 	return res
 }
 
+func c31RevExpNs(r *path_mgmt.RevInfo) int64 {
+	return (int64(r.RawTimestamp) + int64(r.RawTTL)) * c31Sec
+}
+
 func c31ReplayInBubble(cfg c31Cfg, hist []c31Ev) (res c31Result) {
 	ctx := context.Background()
-	// Half-second phase: every timestamp and expiry is a whole second, every "now" is x.5 s, so that no event
-	// happens exactly at an expiry instant (the statement does not say whether that instant is expired).
-	time.Sleep(500 * time.Millisecond)
-	if cfg.startSec > 0 {
-		time.Sleep(time.Unix(cfg.startSec, 500_000_000).Sub(time.Now()))
+	if !cfg.exact {
+		// Half-second phase: every timestamp and expiry is a whole second, every "now" is x.5 s, so that no event
+		// happens exactly at an expiry instant.
+		time.Sleep(500 * time.Millisecond)
+		if cfg.startSec > 0 {
+			time.Sleep(time.Unix(cfg.startSec, 500_000_000).Sub(time.Now()))
+		}
+	} else {
+		if cfg.startSec > 0 {
+			time.Sleep(time.Unix(cfg.startSec, 0).Sub(time.Now()))
+		}
+		if time.Now().UnixNano()%c31Sec != 0 {
+			panic("harness: the virtual clock does not start on a whole second")
+		}
 	}
 	nk := len(cfg.keys)
 	// caches[0] is the instance under observation; caches[1+i] receive the same history and are used up by
@@ -254,22 +404,27 @@ func c31ReplayInBubble(cfg c31Cfg, hist []c31Ev) (res c31Result) {
 				return "final probe"
 			}(), fmt.Sprintf(format, a...))}}
 	}
+	rel := func(k int, ts, ttl uint32, nowNs int64) string {
+		return fmt.Sprintf("k%d:ts%+dns,ttl%d", k, int64(ts)*c31Sec-nowNs, ttl)
+	}
 	// lookups on the observed instance vs model; returns a violation or the rendered observation
 	observe := func(step int) (string, *c31Result) {
-		nowMs := time.Now().UnixMilli()
+		nowNs := time.Now().UnixNano()
 		var parts []string
-		wantAll := []string{}
+		mustAll, mayAll := map[string]bool{}, map[string]bool{}
 		for k, key := range cfg.keys {
 			got, err := caches[0].Get(ctx, key)
 			if err != nil {
 				r := fail("get-error", step, "Get(%v): %v", key, err)
 				return "", &r
 			}
-			want, isLive := m.live(k, nowMs)
+			want, isLive := m.live(k, nowNs)
+			edge, isEdge := m.atExpiry(k, nowNs)
 			if got != nil {
 				// never return an expired revocation, whatever the model thinks is stored
-				if (int64(got.RawTimestamp)+int64(got.RawTTL))*1000 <= nowMs {
-					r := fail("lookup-returned-expired", step, "Get(%v) returned %v at now=%dms", key, got, nowMs)
+				if c31RevExpNs(got) < nowNs {
+					r := fail("lookup-returned-expired", step, "Get(%v) returned %v at now=%dns, %d ns after its expiration",
+						key, got, nowNs, nowNs-c31RevExpNs(got))
 					return "", &r
 				}
 				if got.IfID != key.IfID || got.RawIsdas != key.IA {
@@ -278,24 +433,40 @@ func c31ReplayInBubble(cfg c31Cfg, hist []c31Ev) (res c31Result) {
 				}
 			}
 			switch {
+			case isEdge && got != nil && (got.RawTimestamp != edge.tsSec || got.RawTTL != edge.ttlSec):
+				r := fail("lookup-wrong-version", step, "Get(%v) returned ts=%d ttl=%d; newest accepted is %+v "+
+					"(exactly at its expiration time)", key, got.RawTimestamp, got.RawTTL, edge)
+				return "", &r
+			case isEdge:
+				// exactly at its expiration time: returned or not, both admissible
 			case !isLive && got != nil:
 				_, present := m.stored[k]
 				r := fail("lookup-returned-unaccepted", step,
 					"Get(%v) returned %v; model holds no live revocation (stored=%v)", key, got, present)
 				return "", &r
 			case isLive && got == nil:
-				r := fail("lookup-lost-live", step, "Get(%v) returned nothing; accepted live revocation %+v", key, want)
+				r := fail("lookup-lost-live", step, "Get(%v) returned nothing at now=%dns; accepted live revocation %+v "+
+					"expires in %d ns", key, nowNs, want, want.expNs()-nowNs)
 				return "", &r
 			case isLive && (got.RawTimestamp != want.tsSec || got.RawTTL != want.ttlSec):
 				r := fail("lookup-wrong-version", step, "Get(%v) returned ts=%d ttl=%d; newest accepted is %+v",
 					key, got.RawTimestamp, got.RawTTL, want)
 				return "", &r
 			}
-			if isLive {
-				rel := fmt.Sprintf("k%d:ts%+dms,ttl%d", k, int64(got.RawTimestamp)*1000-nowMs, got.RawTTL)
-				parts = append(parts, rel)
-				wantAll = append(wantAll, rel)
-			} else {
+			switch {
+			case isLive:
+				s := rel(k, got.RawTimestamp, got.RawTTL, nowNs)
+				parts = append(parts, s)
+				mustAll[s] = true
+			case isEdge:
+				s := rel(k, edge.tsSec, edge.ttlSec, nowNs)
+				mayAll[s] = true
+				if got != nil {
+					parts = append(parts, s+"@expiry:returned")
+				} else {
+					parts = append(parts, s+"@expiry:hidden")
+				}
+			default:
 				parts = append(parts, fmt.Sprintf("k%d:-", k))
 			}
 		}
@@ -305,6 +476,8 @@ func c31ReplayInBubble(cfg c31Cfg, hist []c31Ev) (res c31Result) {
 			return "", &r
 		}
 		gotAll := []string{}
+		seen := map[string]bool{}
+		bad := false
 		for roe := range ch {
 			if roe.Err != nil || roe.Rev == nil {
 				r := fail("getall-error", step, "%+v", roe)
@@ -316,79 +489,135 @@ func c31ReplayInBubble(cfg c31Cfg, hist []c31Ev) (res c31Result) {
 					ki = k
 				}
 			}
-			gotAll = append(gotAll, fmt.Sprintf("k%d:ts%+dms,ttl%d", ki, int64(roe.Rev.RawTimestamp)*1000-nowMs, roe.Rev.RawTTL))
+			s := rel(ki, roe.Rev.RawTimestamp, roe.Rev.RawTTL, nowNs)
+			gotAll = append(gotAll, s)
+			if seen[s] || !(mustAll[s] || mayAll[s]) {
+				bad = true
+			}
+			seen[s] = true
 		}
-		sort.Strings(gotAll)
-		sort.Strings(wantAll)
-		if fmt.Sprint(gotAll) != fmt.Sprint(wantAll) {
-			r := fail("getall-mismatch", step, "GetAll=%v, live accepted revocations=%v", gotAll, wantAll)
+		for s := range mustAll {
+			if !seen[s] {
+				bad = true
+			}
+		}
+		if bad {
+			sort.Strings(gotAll)
+			r := fail("getall-mismatch", step, "GetAll=%v, live accepted revocations=%v, exactly at their expiration time=%v",
+				gotAll, c31Keys(mustAll), c31Keys(mayAll))
 			return "", &r
+		}
+		if len(mayAll) > 0 {
+			// which of the entries that are exactly at their expiration time GetAll lists is part of the observation
+			var l []string
+			for s := range mayAll {
+				if seen[s] {
+					l = append(l, s)
+				}
+			}
+			sort.Strings(l)
+			parts = append(parts, fmt.Sprintf("getall@expiry=%v", l))
 		}
 		return strings.Join(parts, " "), nil
 	}
 
 	for i, e := range hist {
 		last := i == len(hist)-1
-		nowMs := time.Now().UnixMilli()
+		nowNs := time.Now().UnixNano()
 		cls := ""
 		switch e.Op {
 		case c31Insert:
-			s := c31Raw(e, nowMs)
-			if s.expMs() == nowMs {
-				panic("harness: event at an exact expiry instant")
+			s := c31Raw(e, cfg.baseSec(nowNs))
+			if !cfg.exact && s.expNs() == nowNs {
+				panic("harness: event at an exact expiry instant outside the expiry-instants phases")
 			}
-			var want bool
-			want, cls = m.insert(int(e.K), s, nowMs)
+			var mayAcc, mayRej bool
+			mayAcc, mayRej, cls = m.insertVerdict(int(e.K), s, nowNs)
+			var first bool
 			for ci, c := range caches {
 				got, err := c.Insert(ctx, c31Rev(cfg.keys[e.K], s))
 				if err != nil {
 					return fail("insert-error", i, "%v", err)
 				}
-				if got != want {
-					key := "insert-accepted-wrongly/" + strings.TrimPrefix(cls, "insert:rejected-")
-					if want {
-						key = "insert-rejected-wrongly/" + strings.TrimPrefix(cls, "insert:accepted-")
-					}
-					return fail(key, i, "instance %d: Insert returned %v, statement demands %v (%s) at now=%dms", ci, got, want, cls, nowMs)
+				if got && !mayAcc {
+					return fail("insert-accepted-wrongly/"+strings.TrimPrefix(strings.TrimPrefix(cls, "insert:"), "rejected-"), i,
+						"instance %d: Insert returned true, statement demands false (%s) at now=%dns, expiration-now=%dns",
+						ci, cls, nowNs, s.expNs()-nowNs)
 				}
+				if !got && !mayRej {
+					return fail("insert-rejected-wrongly/"+strings.TrimPrefix(strings.TrimPrefix(cls, "insert:"), "accepted-"), i,
+						"instance %d: Insert returned false, statement demands true (%s) at now=%dns, expiration-now=%dns",
+						ci, cls, nowNs, s.expNs()-nowNs)
+				}
+				if ci == 0 {
+					first = got
+				} else if got != first {
+					return fail("identical-histories-diverge", i, "instance %d: Insert returned %v, instance 0 %v", ci, got, first)
+				}
+			}
+			m.commit(int(e.K), s, first)
+			if mayAcc && mayRej {
+				cls += map[bool]string{true: ":accepted", false: ":rejected"}[first]
 			}
 		case c31Get:
 			// the comparison itself happens in observe() below (every key, every step); the explicit event
 			// exists so that a lookup with a side effect on later behaviour would be noticed.
+			var got *path_mgmt.RevInfo
 			for _, c := range caches[1:] {
-				if _, err := c.Get(ctx, cfg.keys[e.K]); err != nil {
+				var err error
+				if got, err = c.Get(ctx, cfg.keys[e.K]); err != nil {
 					return fail("get-error", i, "%v", err)
 				}
 			}
-			if _, ok := m.live(int(e.K), nowMs); ok {
+			if _, ok := m.live(int(e.K), nowNs); ok {
 				cls = "get:hit"
+			} else if _, ok := m.atExpiry(int(e.K), nowNs); ok {
+				cls = "get:at-expiry-instant:" + map[bool]string{true: "returned", false: "nothing"}[got != nil]
 			} else if _, present := m.stored[int(e.K)]; present {
 				cls = "get:miss-expired"
 			} else {
 				cls = "get:miss-absent"
 			}
 		case c31Clean:
-			want := m.clean(nowMs)
+			var first int64
 			for ci, c := range caches {
 				got, err := c.DeleteExpired(ctx)
 				if err != nil {
 					return fail("cleanup-error", i, "%v", err)
 				}
-				if got != want {
-					return fail("cleanup-count", i, "instance %d: DeleteExpired returned %d, %d expired entries were stored", ci, got, want)
+				if ci == 0 {
+					first = got
+				} else if got != first {
+					return fail("identical-histories-diverge", i, "instance %d: DeleteExpired returned %d, instance 0 %d", ci, got, first)
 				}
 			}
-			cls = "cleanup:none"
-			if want > 0 {
-				cls = "cleanup:removed"
+			var bad string
+			if cls, bad = m.cleanCheck(first, nowNs); bad != "" {
+				return fail("cleanup-count", i, "%s", bad)
 			}
-		case c31Advance:
-			before := len(c31LiveKeys(m, nowMs))
-			time.Sleep(time.Duration(e.Adv) * time.Second)
-			after := len(c31LiveKeys(m, time.Now().UnixMilli()))
+		case c31Advance, c31AdvTo:
+			before := len(c31LiveKeys(m, nowNs))
+			if e.Op == c31Advance {
+				time.Sleep(time.Duration(e.Adv) * time.Second)
+			} else {
+				target := (cfg.baseSec(nowNs)+int64(e.Adv))*c31Sec + int64(e.Ph)
+				if target <= nowNs {
+					panic("harness: AdvTo event that does not move the clock forward")
+				}
+				time.Sleep(time.Duration(target - nowNs))
+				if time.Now().UnixNano() != target {
+					panic("harness: virtual clock missed the target instant")
+				}
+			}
+			after := time.Now().UnixNano()
 			cls = "advance:nothing-expires"
-			if after < before {
+			if len(c31LiveKeys(m, after)) < before {
 				cls = "advance:expires-live"
+				for k := range cfg.keys {
+					if _, ok := m.atExpiry(k, after); ok {
+						cls = "advance:to-expiry-instant"
+					}
+				}
 			}
 		}
 		if _, r := observe(i); r != nil {
@@ -406,14 +635,19 @@ func c31ReplayInBubble(cfg c31Cfg, hist []c31Ev) (res c31Result) {
 	// Destructive probes (the instances are thrown away afterwards): which keys still hold an expired entry.
 	// Probe i: put a fresh long-lived revocation on every other key (this replaces expired entries there), then
 	// clean up; the count is then 1 iff key i holds an expired entry. Probe on caches[0]: total count.
-	nowMs := time.Now().UnixMilli()
+	nowNs := time.Now().UnixNano()
 	var bits []string
 	for k := range cfg.keys {
 		c := caches[1+k]
 		for j, key := range cfg.keys {
 			if j != k {
-				fresh := c31Stored{tsSec: uint32(nowMs / 1000), ttlSec: 1000}
-				if nowMs/1000+1000 >= 1<<32 {
+				fresh := c31Stored{tsSec: uint32(nowNs / c31Sec), ttlSec: 1000}
+				if cfg.exact {
+					// newer than every timestamp of the menu, so that it also replaces an entry that is exactly at its
+					// expiration time whichever way that instant is read
+					fresh.tsSec += 10
+				}
+				if nowNs/c31Sec+1000 >= 1<<32 {
 					// no unexpired revocation fits below 2^32 s any more: newest possible timestamp, longest lifetime
 					fresh = c31Stored{tsSec: 1<<32 - 1, ttlSec: 1<<32 - 1}
 				}
@@ -426,12 +660,17 @@ func c31ReplayInBubble(cfg c31Cfg, hist []c31Ev) (res c31Result) {
 		if err != nil {
 			return fail("cleanup-error", len(hist), "%v", err)
 		}
-		want := int64(0)
-		if s, ok := m.stored[k]; ok && s.expMs() <= nowMs {
-			want = 1
+		lo, hi := int64(0), int64(0)
+		if s, ok := m.stored[k]; ok {
+			switch s.life(nowNs) {
+			case c31Dead:
+				lo, hi = 1, 1
+			case c31AtExpiry:
+				hi = 1
+			}
 		}
-		if n != want {
-			return fail("cleanup-count", len(hist), "probe key %d: DeleteExpired returned %d, want %d", k, n, want)
+		if n < lo || n > hi {
+			return fail("cleanup-count", len(hist), "probe key %d: DeleteExpired returned %d, want %d..%d", k, n, lo, hi)
 		}
 		bits = append(bits, fmt.Sprint(n))
 	}
@@ -439,8 +678,8 @@ func c31ReplayInBubble(cfg c31Cfg, hist []c31Ev) (res c31Result) {
 	if err != nil {
 		return fail("cleanup-error", len(hist), "%v", err)
 	}
-	if want := m.clean(nowMs); total != want {
-		return fail("cleanup-count", len(hist), "final DeleteExpired returned %d, %d expired entries were stored", total, want)
+	if _, bad := m.cleanCheck(total, nowNs); bad != "" {
+		return fail("cleanup-count", len(hist), "final %s", bad)
 	}
 	// live entries must survive the clean-up
 	if _, r := observe(len(hist)); r != nil {
@@ -448,15 +687,27 @@ func c31ReplayInBubble(cfg c31Cfg, hist []c31Ev) (res c31Result) {
 	}
 	res.canon = obs + " | expired-present=" + strings.Join(bits, "") + fmt.Sprintf(" total=%d", total)
 	if cfg.absClock {
-		res.canon += fmt.Sprintf(" | clock=2^32%+dms", nowMs-(1<<32)*1000)
+		res.canon += fmt.Sprintf(" | clock=2^32%+dns", nowNs-(1<<32)*c31Sec)
+	}
+	if cfg.exact {
+		res.canon += fmt.Sprintf(" | phase=%+dns", nowNs-cfg.baseSec(nowNs)*c31Sec)
 	}
 	return res
 }
 
-func c31LiveKeys(m *c31Model, nowMs int64) []int {
+func c31Keys(m map[string]bool) []string {
+	l := []string{}
+	for s := range m {
+		l = append(l, s)
+	}
+	sort.Strings(l)
+	return l
+}
+
+func c31LiveKeys(m *c31Model, nowNs int64) []int {
 	var ks []int
 	for k := range m.stored {
-		if _, ok := m.live(k, nowMs); ok {
+		if _, ok := m.live(k, nowNs); ok {
 			ks = append(ks, k)
 		}
 	}
@@ -490,13 +741,26 @@ func TestC31(t *testing.T) {
 		ttls: []int{30, int(c31TTLReachM1), int(c31TTLReach), int(c31TTLMax)}, advs: []int{15}, absClock: true}
 	late := c31Cfg{keys: []revcache.Key{k0}, tsOffs: []int{-20, 0}, ttls: []int{10, 30, int(c31TTLReach), int(c31TTLMax)},
 		advs: []int{15}, absClock: true, startSec: 1<<32 - 41}
+	// expiry instants: the clock sits exactly on, 1 ns before and 1 ns after whole seconds; timestamp+lifetime of an
+	// insertion is the nearest whole second -2 .. +3 s, i.e. exactly now, 1 ns / 1 s before and after now (lifetime 0
+	// included: expiration == timestamp); AdvTo lands exactly on, 1 ns before and 1 ns after the expiration of what
+	// is stored, or leaps over it
+	inst := c31Cfg{tsOffs: []int{-2, -1, 0}, ttls: []int{0, 1, 2, 3}, advTo: []int{0, 1, 2}, exact: true}
+	inst1, inst2, inst3 := inst, inst, inst
+	inst1.keys, inst2.keys, inst3.keys = []revcache.Key{k0}, []revcache.Key{k0, k2}, []revcache.Key{k0, k1, k2}
+	// the same with the clock started 3 s before 2^32 s: expirations exactly at 2^32 s met exactly by the clock
+	lateInst := c31Cfg{keys: []revcache.Key{k0}, tsOffs: []int{-2, 0}, ttls: []int{1, 2, int(c31TTLReach), int(c31TTLMax)},
+		advTo: []int{0, 1, 2}, exact: true, absClock: true, startSec: 1<<32 - 3}
 	ext2, late2 := ext, late
 	ext2.keys, late2.keys = []revcache.Key{k0, k2}, []revcache.Key{k0, k2}
 	phases := []c31Phase{{"3keys-5s-grid", small, 12, true},
 		{"1key-range-ends-clock-2000", ext, mc.Pick(5, 6), true},
 		{"1key-clock-crossing-2^32s", late, mc.Pick(6, 8), true},
 		{"1key-arbitrary-lifetimes", arb1, 20, true},
-		{"2keys-arbitrary-lifetimes-nomerge", arb2, 20, false}}
+		{"2keys-arbitrary-lifetimes-nomerge", arb2, 20, false},
+		{"1key-expiry-instants", inst1, 24, true},
+		{"2keys-expiry-instants-nomerge", inst2, 24, false},
+		{"1key-expiry-instants-clock-crossing-2^32s", lateInst, mc.Pick(4, 6), true}}
 	if mc.Thorough() {
 		// +1: a timestamp slightly in the future; Advance(1) turns the 5 s grid into a 1 s grid
 		fine := c31Cfg{keys: []revcache.Key{k0, k1}, tsOffs: []int{-25, -20, -10, -5, 0, 1}, ttls: []int{10, 15, 30},
@@ -509,6 +773,8 @@ func TestC31(t *testing.T) {
 			c31Phase{"3keys-rich-5s-grid-nomerge", rich3, 16, false},
 			c31Phase{"4keys-5s-grid-nomerge", small4, 14, false},
 			c31Phase{"3keys-arbitrary-lifetimes-nomerge", arb3, 24, false},
+			c31Phase{"2keys-expiry-instants", inst2, 24, true},
+			c31Phase{"3keys-expiry-instants-nomerge", inst3, 30, false},
 			c31Phase{"2keys-range-ends-clock-2000-nomerge", ext2, 4, false},
 			c31Phase{"2keys-clock-crossing-2^32s-nomerge", late2, 5, false})
 	}
@@ -516,11 +782,19 @@ func TestC31(t *testing.T) {
 		"state appears) from the menu Insert(key, timestamp = floor(now)+off s, lifetime s) for every key x offset x " +
 		"lifetime, Get(key), DeleteExpired, Advance(s); a state is the relative dump of all lookups plus which keys still " +
 		"hold an expired entry; every transition is a full replay on fresh caches under the virtual clock, compared step " +
-		"by step (return values, Get of every key, GetAll) with the map model; a case (history) is non-trivial if the " +
-		"cache holds at least one revocation at its end. Phases: see Extra.phases"
+		"by step (return values, Get of every key, GetAll) with the map model in exact integer nanoseconds; a case " +
+		"(history) is non-trivial if the cache holds at least one revocation at its end. In the expiry-instants phases " +
+		"the clock sits on whole seconds and 1 ns before/after them (AdvTo(d s, -1/0/+1 ns) events; the phase is part of " +
+		"the state), so insertions, lookups and clean-ups happen exactly at, 1 ns / 1 s before and after expiration " +
+		"times. Phases: see Extra.phases"
 	r.Assumptions = []string{
-		"the instant now == expiration is excluded (clock runs at x.5 s, timestamps are whole seconds): the statement " +
-			"does not say whether a revocation is expired exactly at its expiration time",
+		"the statement does not say whether a revocation is expired exactly AT its expiration time (scion itself reads " +
+			"it both ways: RevInfo.Active and the cache's lookups count that instant as unexpired, memrevcache.Insert as " +
+			"expired): in the expiry-instants phases every operation may treat a revocation with expiration == now either " +
+			"way (insert of it: accept or reject; insert of a not-newer one over it: accept or reject; lookup: return it or " +
+			"nothing; clean-up: delete it or not, but all entries with that same expiration alike) and the model follows " +
+			"the answer; 1 ns earlier it is unexpired and 1 ns later expired without tolerance. All other phases keep the " +
+			"clock at x.5 s, where that instant does not occur",
 		"DeleteExpired must return the number of expired entries that were still stored (revcache.RevCache doc: " +
 			"'Returns the amount of deleted entries'); an expired entry replaced by an accepted insert is not counted",
 		"a phase whose search ends before its depth bound has explored every state reachable with its event menu " +
@@ -547,14 +821,14 @@ func TestC31(t *testing.T) {
 				}
 				return res.canon, res.viol
 			},
-			Events:     func([]c31Ev) []c31Ev { return menu },
+			Events:     func(hist []c31Ev) []c31Ev { return cfg.events(menu, hist) },
 			MaxDepth:   ph.maxDepth,
 			CheckMerge: ph.merge,
 			Workers:    mc.Pick(8, 12),
 			Stop:       r.OutOfBudget,
 		})
 		info := map[string]any{"name": ph.name, "keys": len(cfg.keys), "ts_offsets_s": cfg.tsOffs, "lifetimes_s": cfg.ttls,
-			"advances_s": cfg.advs, "event_menu": len(menu), "max_depth": ph.maxDepth, "depth_reached": st.Depth,
+			"advances_s": cfg.advs, "advance_to_s_x_phase_ns": cfg.advTo, "expiry_instants": cfg.exact, "event_menu": len(menu), "max_depth": ph.maxDepth, "depth_reached": st.Depth,
 			"merge_check": ph.merge, "merge_checks": st.MergeChecks, "states": st.States, "transitions": st.Transitions,
 			"fixpoint": st.Complete && st.Depth < ph.maxDepth && len(st.Violations) == 0}
 		if len(st.Violations) > 0 && len(st.MergeErrors) > 0 {
@@ -572,6 +846,7 @@ func TestC31(t *testing.T) {
 	r.Extra["phases"] = phaseInfo
 	// every class of the statement must have occurred: accept (first / replaces live / over expired with newer and
 	// with older timestamp), reject (expired / equal / older), hit, miss (absent / expired), clean-up with and
-	// without removals, advance with and without expiry
-	r.Finish(13)
+	// without removals, advance with and without expiry; plus, whatever the implementation answers there, insert /
+	// lookup / clean-up of a revocation exactly at its expiration time and advance onto such an instant
+	r.Finish(17)
 }
